@@ -410,6 +410,77 @@ fn structured<const N: usize>(order: &[(DK, DV)], cx: &mut Ctx) {
     }
 }
 
+/// Elements whose text is one long piece (String / &str of 0, 1, 3, 63, 64, 65, 70, 130 bytes) in
+/// every slot order the state space offers: a formatter that stages small pieces in a fixed buffer,
+/// or treats long pieces specially, must still emit everything in order. Display is '{' + entries
+/// joined by ", " + '}' ('key: value' for maps); Debug is std's debug_map / debug_set rendering.
+fn long_elements<const N: usize>(order: &[(DK, DV)], cx: &mut Ctx) {
+    const KL: [usize; 8] = [3, 70, 0, 64, 65, 130, 1, 63];
+    const VL: [usize; 4] = [65, 2, 0, 64];
+    let key = |k: &DK| -> String { std::iter::repeat((b'a' + k.0 % 8) as char).take(KL[(k.0 % 8) as usize]).collect() };
+    let val = |v: &DV| -> String { std::iter::repeat((b'A' + v.0 % 4) as char).take(VL[(v.0 % 4) as usize]).collect() };
+    let texts: Vec<(String, String)> = order.iter().map(|(k, v)| (key(k), val(v))).collect();
+    let mut m: Map<String, String, N> = Map::new();
+    let mut s: Set<String, N> = Set::new();
+    let mut sr: Set<&str, N> = Set::new();
+    for (k, v) in &texts {
+        m.insert(k.clone(), v.clone());
+        s.insert(k.clone());
+        sr.insert(k.as_str());
+    }
+    cx.here.op = "Display / Debug of containers whose elements render as one long piece".into();
+    let mo: Vec<(&String, &String)> = m.iter().collect();
+    let so: Vec<&String> = s.iter().collect();
+    let sro: Vec<&&str> = sr.iter().collect();
+    let want_m = format!("{{{}}}", mo.iter().map(|(k, v)| format!("{k}: {v}")).collect::<Vec<_>>().join(", "));
+    let want_s = format!("{{{}}}", so.iter().map(|k| k.to_string()).collect::<Vec<_>>().join(", "));
+    let want_sr = format!("{{{}}}", sro.iter().map(|k| k.to_string()).collect::<Vec<_>>().join(", "));
+    let short = |x: &str| -> String { if x.len() > 120 { format!("{}...({} bytes)", &x[..120], x.len()) } else { x.to_string() } };
+    macro_rules! same {
+        ($what:expr, $got:expr, $want:expr) => {{
+            let (g, w): (String, String) = ($got, $want);
+            cx.check(PM, g == w, || format!("{}: rendered {:?}, expected {:?}", $what, short(&g), short(&w)));
+        }};
+    }
+    same!("Map<String,String> {} (long pieces)", format!("{m}"), want_m.clone());
+    same!("Set<String> {} (long pieces)", format!("{s}"), want_s.clone());
+    same!("Set<&str> {} (long pieces)", format!("{sr}"), want_sr);
+    // through a sink that receives the pieces one write_str at a time (no intermediate String)
+    {
+        use fmt::Write;
+        struct Pieces(String, usize);
+        impl fmt::Write for Pieces {
+            fn write_str(&mut self, p: &str) -> fmt::Result {
+                self.0.push_str(p);
+                self.1 += 1;
+                Ok(())
+            }
+        }
+        let mut p = Pieces(String::new(), 0);
+        let r = write!(p, "{s}");
+        cx.check(PM, r.is_ok() && p.0 == want_s, || format!("Set<String> Display into a piecewise sink: {:?}, expected {:?}", short(&p.0), short(&want_s)));
+        let mut p = Pieces(String::new(), 0);
+        let r = write!(p, "{m}");
+        cx.check(PM, r.is_ok() && p.0 == want_m, || format!("Map<String,String> Display into a piecewise sink: {:?}, expected {:?}", short(&p.0), short(&want_m)));
+    }
+    struct M<'a>(&'a [(&'a String, &'a String)]);
+    impl fmt::Debug for M<'_> {
+        fn fmt(&self, f: &mut fmt::Formatter<'_>) -> fmt::Result {
+            f.debug_map().entries(self.0.iter().map(|(k, v)| (*k, *v))).finish()
+        }
+    }
+    struct S<'a>(&'a [&'a String]);
+    impl fmt::Debug for S<'_> {
+        fn fmt(&self, f: &mut fmt::Formatter<'_>) -> fmt::Result {
+            f.debug_set().entries(self.0.iter()).finish()
+        }
+    }
+    same!("Map<String,String> {:?} (long pieces)", format!("{m:?}"), format!("{:?}", M(&mo)));
+    same!("Map<String,String> {:#?} (long pieces)", format!("{m:#?}"), format!("{:#?}", M(&mo)));
+    same!("Set<String> {:?} (long pieces)", format!("{s:?}"), format!("{:?}", S(&so)));
+    same!("Set<String> {:#?} (long pieces)", format!("{s:#?}"), format!("{:#?}", S(&so)));
+}
+
 fn per_state<const N: usize>(sys: &MapSys<Kx, Vx, N>, path: &[u32], cx: &mut Ctx) {
     let mut b = sys.build(path, cx);
     let entries: Vec<(KD, VD)> = b.bx.c.iter().map(|(k, v)| (k.desc(), v.desc())).collect();
@@ -425,6 +496,7 @@ fn per_state<const N: usize>(sys: &MapSys<Kx, Vx, N>, path: &[u32], cx: &mut Ctx
     }
     let order: Vec<(DK, DV)> = entries.iter().map(|(k, v)| (dk(k), DV(v.v))).collect();
     structured::<N>(&order, cx);
+    long_elements::<N>(&order, cx);
     if order.is_empty() {
         zst_formatting::<N>(cx);
     }
